@@ -1,7 +1,10 @@
 package drivers
 
 import (
+	"encoding/json"
 	"math/rand"
+	"os"
+	"path/filepath"
 	"sync"
 	"testing"
 	"time"
@@ -210,6 +213,7 @@ func TestC05Streams(t *testing.T) {
 	type out struct {
 		events []trace.Event
 		desc   map[string]any
+		link   []trace.Event
 	}
 	var mu sync.Mutex
 	var outs []out
@@ -232,14 +236,31 @@ func TestC05Streams(t *testing.T) {
 				"faultForS": int(sc.faultFor / time.Second), "readBuf": sc.readBuf, "sizesC": sc.sizes[0], "sizesS": sc.sizes[1]}
 			ev := append([]trace.Event{{"ev": "reset", "scen": sc.name, "i": i,
 				"prepaired": b2i(sc.prepaired), "v1": 0, "cconn": ids[0], "sconn": ids[1]}}, s.Rec.Events()...)
+			// the packets the two ends' GBN connections handed to / got
+			// from the mailbox transport (validated against
+			// MailboxLink.tla's LossyFifo)
+			link := append([]trace.Event{{"ev": "reset", "op": "reset", "scen": sc.name, "i": i}},
+				s.LinkEvents()...)
 			mu.Lock()
-			outs = append(outs, out{ev, desc})
+			outs = append(outs, out{ev, desc, link})
 			mu.Unlock()
 		}()
 	}
 	wg.Wait()
+	lf, err := os.Create(filepath.Join(dir, "c05link.ndjson"))
+	if err != nil {
+		t.Fatal(err)
+	}
+	lenc := json.NewEncoder(lf)
 	for _, o := range outs {
 		ts.add("all", o.events, o.desc, true, nil)
+		for _, e := range o.link {
+			if _, ok := e["op"]; !ok {
+				e["op"] = e["ev"]
+			}
+			lenc.Encode(e)
+		}
 	}
+	lf.Close()
 	ts.close(nil)
 }
